@@ -88,6 +88,8 @@ def run(rep, pdb, tier):
     from .guards import for_range as _raw
     r0 = _raw(ctx, outer0)
     check_argmax(rep, pdb, lu, "pivot-search", r0[0], ROWS, 1, lambda c: r0[0])
+    from .c01 import check_lu_elimination
+    check_lu_elimination(rep, pdb, lu, "elimination")
     # other divisions reachable from determinant (none expected besides lu's)
     seen, _ = reachable_fns(pdb, det)
     others = []
